@@ -760,7 +760,7 @@ fn body_json<'tcx>(tcx: TyCtxt<'tcx>, ldid: LocalDefId) -> Option<J> {
     }
     o.put("blocks", J::Arr(blocks));
     // promoted constants (`&Unit::None`, `&[..]` literals): tiny straight-line bodies
-    if matches!(kind, DefKind::Fn | DefKind::AssocFn | DefKind::Closure) {
+    if matches!(kind, DefKind::Fn | DefKind::AssocFn | DefKind::Closure | DefKind::Static { .. } | DefKind::Const { .. }) {
         let mut proms = Vec::new();
         for (_, pb) in tcx.promoted_mir(did).iter_enumerated() {
             let mut p = J::obj();
